@@ -137,18 +137,28 @@ def acceptH (args : List String) : Option String := do
     some (sOutcome (acceptV v b it d ks s))
   | _ => none
 
-/-- `config.sequence variant backend bases leak kinds solver` → outcome | `none`. -/
+/-- `config.acceptdev fixed backend it dim prefer cfgKinds devKinds solver` → outcome. -/
+def acceptDevH (args : List String) : Option String := do
+  match args with
+  | [fx, b, it, d, pr, ck, dk, s] =>
+    let fx ← parseB fx; let b ← pBackend b; let it ← pIntType it; let d ← pNat d; let pr ← parseB pr
+    let ck ← parseList pKind ck; let dk ← parseList pKind dk; let s ← pSolver s
+    some (sOutcome (acceptDev fx b it d pr ck dk s))
+  | _ => none
+
+/-- `config.sequence variant fixed backend bases leak kinds solver` → outcome | `none`. -/
 def sequenceH (args : List String) : Option String := do
   match args with
-  | [v, b, bs, l, ks, s] =>
-    let v ← pVariant v; let b ← pBackend b; let bs ← parseList pChan bs; let l ← parseB l
+  | [v, fx, b, bs, l, ks, s] =>
+    let v ← pVariant v; let fx ← parseB fx; let b ← pBackend b; let bs ← parseList pChan bs; let l ← parseB l
     let ks ← parseList pKind ks; let s ← pSolver s
-    some (match acceptSequence v b bs l ks s with | none => "none" | some o => sOutcome o)
+    some (match acceptSequence v fx b bs l ks s with | none => "none" | some o => sOutcome o)
   | _ => none
 
 def handlers : List (String × (List String → Option String)) :=
   [("config.floor", floorF), ("config.mk", mkF), ("config.lind", lindH), ("config.detect", detectH),
    ("config.extract", extractH), ("config.basis", basisH), ("config.seq", seqH),
-   ("config.impl", implH), ("config.accept", acceptH), ("config.sequence", sequenceH)]
+   ("config.impl", implH), ("config.accept", acceptH), ("config.acceptdev", acceptDevH),
+   ("config.sequence", sequenceH)]
 
 end EmuVerif.Drv.Config
